@@ -169,7 +169,8 @@ func c17ByUUID(u string) []ovsdb.Condition {
 }
 
 // c17Op is one client transaction from the menu; kind 0: increment the counter of the stored row; 1: insert a row
-// with a fixed (unique-indexed) name; 2: replace the counter by a symbolic value; 3: delete the stored row.
+// with a fixed (unique-indexed) name; 2: replace the counter by a symbolic value; 3: delete the stored row; 4: select
+// the contended name, then insert it.
 func c17Op(kind int, v int) []ovsdb.Operation {
 	switch kind {
 	case 0:
@@ -179,8 +180,12 @@ func c17Op(kind int, v int) []ovsdb.Operation {
 		return []ovsdb.Operation{{Op: ovsdb.OperationInsert, Table: "Root", Row: ovsdb.Row{"name": "contended", "num": v}}}
 	case 2:
 		return []ovsdb.Operation{{Op: ovsdb.OperationUpdate, Table: "Root", Where: c17ByUUID(fix.U1), Row: ovsdb.Row{"num": v}}}
-	default:
+	case 3:
 		return []ovsdb.Operation{{Op: ovsdb.OperationDelete, Table: "Root", Where: c17ByUUID(fix.U1)}}
+	default: // insert-if-absent as clients write it: look the value up, then insert
+		return []ovsdb.Operation{
+			{Op: ovsdb.OperationSelect, Table: "Root", Where: []ovsdb.Condition{{Column: "name", Function: ovsdb.ConditionEqual, Value: "contended"}}},
+			{Op: ovsdb.OperationInsert, Table: "Root", Row: ovsdb.Row{"name": "contended", "num": v}}}
 	}
 }
 
@@ -198,7 +203,7 @@ func (s c17State) apply(kind, v int) (c17State, bool) {
 			s.num++
 		}
 		return s, true
-	case 1:
+	case 1, 4:
 		if len(s.contended) > 0 {
 			return s, false
 		}
@@ -214,6 +219,8 @@ func (s c17State) apply(kind, v int) (c17State, bool) {
 		return s, true
 	}
 }
+
+const c17Kinds = 5
 
 func (e *c17Env) dbState() (c17State, bool) {
 	rows, err := e.spy.inner.List("V", "Root")
@@ -325,7 +332,7 @@ func VerifC17Two() {
 	n0 := 5 // concrete values: the schedule, not the arithmetic, is what this entry explores
 	e.seed(n0)
 	e.monitor()
-	k := [2]int{rt.Choose(4), rt.Choose(4)}
+	k := [2]int{rt.Choose(c17Kinds), rt.Choose(c17Kinds)}
 	v := [2]int{20, 30}
 	var ok [2]bool
 	done := 0
@@ -373,7 +380,7 @@ func VerifC17TwoTwo() {
 	var k, v [2][2]int
 	for i := 0; i < 2; i++ {
 		for j := 0; j < 2; j++ {
-			k[i][j] = rt.Choose(3)
+			k[i][j] = []int{0, 1, 2, 4}[rt.Choose(4)]
 			v[i][j] = 20 + 10*i + j
 		}
 	}
